@@ -64,6 +64,13 @@ def wl_bloom_pairs(ctx, rng, case):
         compat_kind = "same"
         est2, rate2, m2, k2, hname2, hf2 = est, rate, m, k, hname, hf
         ctx.count("large_bloom_pairs_beyond_64KiB")
+    if case.index % 20 == 3 and compat_kind in ("same", "identical", "both_empty", "other_geometry"):
+        # both operands share a strategy that is written for TEXT keys only (whatever key the library probes a strategy with, a
+        # strategy is the same as itself); the universe is text only
+        keys = [k for k in keys if isinstance(k, str)] or ["text-key"]
+        hname = hname2 = "decorated_text_only"
+        hf = hf2 = gen.text_only_strategy()
+        ctx.count("pairs_sharing_a_text_only_strategy")
     disk = (rng.random() < 0.3, rng.random() < 0.3)
     if case.index % 25 == 6:
         # est_elements given as a non-integral number (the constructor accepts any Number > 0).  Such filters cannot be exported (the
